@@ -40,14 +40,21 @@ func (is Instructions) Pass(pass int) bool {
 
 // Assemble the instructions into an Opcode string
 func (is Instructions) Assemble() string {
-	for i := 0; i < 10; i++ {
+	// Every pass can make more jumps need an extended argument, which
+	// moves everything behind them
+	for i := 0; i < 1000; i++ {
 		changed := is.Pass(i)
-		if !changed {
+		if !changed && i > 0 {
 			goto done
 		}
 	}
-	panic("Failed to assemble after 10 passes")
+	panic("Failed to assemble after 1000 passes")
 done:
+	for _, instr := range is {
+		if jump, ok := instr.(*JumpRel); ok && !jump.Resolved() {
+			panic("compile: relative jump does not reach its label")
+		}
+	}
 	out := make([]byte, 0, 3*len(is))
 	for _, i := range is {
 		out = append(out, i.Output()...)
@@ -437,22 +444,48 @@ type JumpRel struct {
 	pos
 	OpArg
 	Dest *Label
+	// Set once the jump has needed an extended argument.  It then
+	// keeps it: the argument is relative to the end of this
+	// instruction, so growing the instruction shortens the jump and
+	// the size could flip for ever otherwise
+	wide bool
+}
+
+// Uses 3 or 6 bytes in the output stream
+func (o *JumpRel) Size() uint32 {
+	if o.wide || o.Arg > 0xFFFF {
+		return 6 // Extend Arg1 Arg2 Op Arg3 Arg4
+	}
+	return 3 // Op Arg1 Arg2
+}
+
+// Output
+func (o *JumpRel) Output() []byte {
+	out := []byte{byte(o.Op), byte(o.Arg), byte(o.Arg >> 8)}
+	if o.Size() == 6 {
+		out = append([]byte{byte(vm.EXTENDED_ARG), byte(o.Arg >> 16), byte(o.Arg >> 24)}, out...)
+	}
+	return out
 }
 
 // Set the Arg from the Jump Label
 func (o *JumpRel) Resolve() {
-	currentSize := o.Size()
-	currentPos := o.Pos() + currentSize
+	currentPos := o.Pos() + o.Size()
 	if o.Dest.Pos() < currentPos {
-		panic("JUMP_FORWARD can't jump backwards")
+		// The destination has not been moved yet in this pass - the
+		// pass after the positions have settled sets the argument
+		// (Assemble checks that every jump ends up resolved)
+		return
 	}
 	o.OpArg.Arg = o.Dest.Pos() - currentPos
-	if o.Size() != currentSize {
-		// FIXME There is an awkward moment where jump forwards is
-		// between 0x1000 and 0x1002 where the Arg oscillates
-		// between 2 and 4 bytes
-		panic("FIXME compile: JUMP_FOWARDS size changed")
+	if o.OpArg.Arg > 0xFFFF {
+		o.wide = true
 	}
+}
+
+// Resolved reports whether the argument agrees with the positions
+func (o *JumpRel) Resolved() bool {
+	return o.Dest.Pos() >= o.Pos()+o.Size() && o.OpArg.Arg == o.Dest.Pos()-o.Pos()-o.Size()
 }
 
 // Creates the lnotab from the instruction stream
